@@ -26,7 +26,7 @@ RULE = ('fp16: every 16-bit pattern once unsigned and once as int16 (exhaustive)
         'pair, packet bytes) that reached a deciding monitor.')
 ASSUMPTIONS = ['numpy.float16 conversion is IEEE-754 binary16', 'struct module packs float32 correctly',
                'LED ring memory layout: byte0=RRRRRGGG byte1=GGGBBBBB (firmware ledring12 reader)']
-REQUIRED = ['mon.fp16', 'mon.quat', 'mon.traj', 'mon.led', 'mon.led_timing', 'mon.range', 'mon.lh_angle',
+REQUIRED = ['mon.traj_elements_serialised_again', 'mon.fp16', 'mon.quat', 'mon.traj', 'mon.led', 'mon.led_timing', 'mon.range', 'mon.lh_angle',
             'mon.fp16_contract', 'mon.traj_segment_boundary_values']
 EXHAUSTIVE = {'quick': False, 'thorough': False}
 EXHAUSTIVE_NOTE = 'the fp16 part (131 072 evaluations) is exhaustive in both tiers; the other parts are sampled'
@@ -320,7 +320,14 @@ def run_traj(desc, ctx):
         ctx.evals()
         ctx.count('mon.traj')
         ctx.count('mon.traj_segment')
-        data = bytes(CompressedSegment(dur, *els).pack())
+        seg_obj = CompressedSegment(dur, *els)
+        data = bytes(seg_obj.pack())
+        # an element is serialised every time its trajectory is uploaded (again after a failed upload, to the next
+        # Crazyflie of a swarm, once for the size and once for the bytes): every serialisation is the same
+        again = [bytes(seg_obj.pack()) for _ in range(rnd.choice((1, 2)))]
+        ctx.count('mon.traj_elements_serialised_again', len(again))
+        if any(a != data for a in again):
+            ctx.violate('traj:segment-serialised-differently-the-second-time', {'lens': lens, 'first': data.hex(), 'again': again[-1].hex()})
         code = {0: 0, 1: 1, 3: 2, 7: 3}
         want_len = 3 + 2 * sum(lens)
         ok = len(data) == want_len
